@@ -198,19 +198,34 @@ TITLE_DELIMS = set("-({[<")  # CALIBRATED: besides whitespace these characters s
 
 
 def spec_title(s):
-    out, start = [], True
+    # "words will start with uppercase letters, all remaining characters are lowercase"
+    out, word = [], ""
+
+    def flush():
+        if word:
+            # uppercase (not titlecase: U+01C6 -> U+01C4, sharp s -> SS, fi ligature -> FI) first character;
+            # CALIBRATED: the remainder is lowercased on its own (final-sigma context does not include the first character)
+            out.append(word[0].upper() + word[1:].lower())
+
     for ch in s:
         if ch.isspace() or ch in TITLE_DELIMS:
+            flush()
+            word = ""
             out.append(ch)
-            start = True
         else:
-            out.append(ch.upper() if start else ch.lower())
-            start = False
+            word += ch
+    flush()
     return "".join(out)
 
 
 def spec_capitalize(s):
-    return s[:1].upper() + s[1:].lower()
+    # "The first character will be uppercase, all others lowercase."
+    # CALIBRATED: "uppercase" of the first character is its Unicode titlecase form (differs only for digraphs,
+    # sharp s and ligatures: U+01C6 -> U+01C5, sharp s -> Ss, fi -> Fi), and the rest is lowercased in the context of the whole string
+    # (word-final capital sigma -> final small sigma), as Python's str.capitalize documents.
+    if not s:
+        return s
+    return s[0].title() + s.lower()[len(s[0].lower()):]
 
 
 def spec_upper(s):
@@ -441,6 +456,10 @@ SIMPLE = [
     ("striptags", (), {}, spec_striptags),
 ]
 CENTER = [(), (0,), (1,), (2,), (3,), (4,), (5,), (6,), (7,), (8,)]
+# code points whose uppercase / titlecase / lowercase forms are not one-to-one: digraph with a distinct titlecase,
+# sharp s, fi ligature, Greek capital sigma (word-final lowercase differs)
+CASE_EXTRA = ("\u01c6", "\u00df", "\ufb01", "\u03a3")
+CASE_SIGMA = SIGMA + CASE_EXTRA
 STRIP_SIGMA = ("a", " ", "<", ">", "&", "&amp;", "&lt;", "\n", "<!--", "-->", "b", "/")
 FORMAT_SIGMA = ("%s", "%d", "%%", "a", "%(k)s", "%", "%5s|")
 FORMAT_ARGS = [((), {}), (("x",), {}), ((1,), {}), (("x", 2), {}), ((), {"k": "v"}), (("x",), {"k": "v"}),
@@ -601,6 +620,12 @@ def shard(arg):
         for a in CENTER:
             run_law(p, "center", a, {}, law_center, ins)
         p.count("strings_sigma", len(ins))
+    elif fam == "case":
+        ins = list(inputs_for(first, maxlen, CASE_SIGMA))
+        for name, args, kwargs, spec in SIMPLE:
+            if name in ("upper", "lower", "capitalize", "title"):
+                run_exact(p, name, args, kwargs, spec, ins)
+        p.count("strings_case_sigma", len(ins))
     elif fam == "extras":
         from markupsafe import Markup
 
@@ -720,7 +745,8 @@ def run(ctx: core.Ctx):
         "CALIBRATED truncate: words are separated by U+0020 only and a cut without a space is kept whole (length/leeway/prefix laws are documented and checked separately)",
         "CALIBRATED wordwrap: a trailing line break does not open another paragraph; only necessary conditions on split points are checked (greedy filling is not)",
         "CALIBRATED indent: 'blank' means empty (whitespace-only lines are indented); first=True indents an empty first line regardless of blank; output line breaks are LF",
-        "CALIBRATED title: word starts are string start and the character after whitespace or one of - ( { [ <",
+        "CALIBRATED title: word starts are string start and the character after whitespace or one of - ( { [ <; the first character is uppercased (not titlecased), the remainder lowercased on its own",
+        "CALIBRATED capitalize: first character in Unicode titlecase form, rest lowercased in whole-string context (Python's str.capitalize), although the docstring says 'uppercase'",
         "CALIBRATED wordcount: word = maximal run of letters/digits/underscore",
         "CALIBRATED striptags: comments first, unterminated '<' kept, result stripped and entity-unescaped",
         "CALIBRATED filesizeformat: singular only for exactly 1, integer part below the base, one decimal above, unit chosen before rounding ('1000.0 kB')",
@@ -733,6 +759,7 @@ def run(ctx: core.Ctx):
     shards = []
     shards += [("simple", None, f, n_sigma) for f in firsts]
     shards += [("extras", None, None, 0)]
+    shards += [("case", None, f, 3 if q else 4) for f in [None] + list(CASE_SIGMA)]
     shards += [("striptags", None, f, 4 if q else 5) for f in [None] + list(STRIP_SIGMA)]
     shards += [("replace", None, f, n_heavy) for f in firsts]
     shards += [("indent", None, f, n_heavy) for f in firsts]
@@ -746,7 +773,8 @@ def run(ctx: core.Ctx):
     shards += [("numbers", (digits, n_num), f, n_num) for f in [None] + list(digits) + list(INT_SIGMA_REST)]
     ctx.pmap(shard, shards)
     ctx.cov["bounds"] = {
-        "sigma": list(SIGMA), "max_fragments_simple_filters": n_sigma, "max_fragments_replace_indent": n_heavy,
+        "sigma": list(SIGMA), "max_fragments_simple_filters": n_sigma,
+        "case_filters_extra_code_points": list(CASE_EXTRA), "max_fragments_case_filters_extended_alphabet": 3 if q else 4, "max_fragments_replace_indent": n_heavy,
         "truncate": {"argument_tuples": len(cfg_truncate()), "string_sets": [["".join(a), n] for a, n in trunc_sets]},
         "wordwrap": {"argument_tuples": len(cfg_wordwrap()), "string_sets": [["".join(a), n] for a, n in wrap_sets]},
         "indent_argument_tuples": len(cfg_indent()), "replace_argument_tuples": len(cfg_replace()),
